@@ -24,6 +24,7 @@ import CpModel.UnreprIO
           (cherrypy.config.update of a flat dict (F) or of an INI file / dict of sections (S); live environments table)
     fc <sections> <path> <key> <default: - | val>        → `V=<val>` | `V=-`
     build <ast>                                            → `ok <val>` | `err <class>`      (reprconf._Builder)
+    nameorigin <id> <importable 0|1> <builtin 0|1>         → K | M | B | -                   (build_Name lookup order)
     toast <val>                                            → `<ast>`                         (AST of repr(val))
 
   (graph encodings: `CpModel/DispatchIO.lean`; ast / value encodings: `CpModel/UnreprIO.lean`)
@@ -146,6 +147,15 @@ def step (line : String) : String :=
       | .ok v => "ok " ++ UnreprIO.showVal v
       | .error er => "err " ++ UnreprIO.showErr er
     | _, _ => "bad-op"
+  | ["nameorigin", id, imp, bi] =>
+    match Proto.untext? id with
+    | some n =>
+      match Unrepr.nameOrigin (fun _ => imp == "1") (fun _ => bi == "1") n with
+      | some .keyword => "K"
+      | some .module => "M"
+      | some .builtin => "B"
+      | none => "-"
+    | none => "bad-op"
   | ["toast", val] =>
     match UnreprIO.parseVal val with
     | some v => UnreprIO.showAst (Unrepr.toAst v)
